@@ -237,7 +237,14 @@ class SymInt:
     __ror__ = __or__
     def __xor__(self, o): return self._bin(o, lambda a, b: a ^ b)
     __rxor__ = __xor__
-    def __lshift__(self, o): return self._bin(o, lambda a, b: a << b)
+    def __lshift__(self, o):
+        if isinstance(o, int) and not isinstance(o, bool) and 0 < o <= 1024:
+            # python integers do not wrap: a left shift by a constant widens the term (capped)
+            w = self.t.size()
+            nw = min(w + o, 4096)
+            if nw > w:
+                return _mk_int(z3.SignExt(nw - w, self.t) << o)
+        return self._bin(o, lambda a, b: a << b)
     def __rlshift__(self, o): return self._bin(o, lambda a, b: a << b, True)
     def __rshift__(self, o): return self._bin(o, lambda a, b: a >> b)      # arithmetic shift = python
     def __rrshift__(self, o): return self._bin(o, lambda a, b: a >> b, True)
